@@ -16,6 +16,40 @@
 static bool edn_value_equal_internal(const edn_value_t* a, const edn_value_t* b, int depth);
 static uint64_t edn_value_hash_internal(const edn_value_t* value);
 
+/* Big-number digit strings may contain '_' separators (experimental extension).  Equality and
+ * hashing look at the digits in place, skipping the separators, so that they never depend on
+ * whether the lazily cleaned copy could be allocated. */
+static bool edn_digits_equal(const char* a, size_t len_a, const char* b, size_t len_b) {
+    size_t i = 0, j = 0;
+    for (;;) {
+#ifdef EDN_ENABLE_EXPERIMENTAL_EXTENSION
+        while (i < len_a && a[i] == '_') i++;
+        while (j < len_b && b[j] == '_') j++;
+#endif
+        if (i == len_a || j == len_b) {
+            return i == len_a && j == len_b;
+        }
+        if (a[i] != b[j]) {
+            return false;
+        }
+        i++;
+        j++;
+    }
+}
+
+static uint64_t edn_digits_hash(uint64_t hash, const char* digits, size_t len) {
+    for (size_t i = 0; i < len; i++) {
+#ifdef EDN_ENABLE_EXPERIMENTAL_EXTENSION
+        if (digits[i] == '_') {
+            continue;
+        }
+#endif
+        hash ^= (uint8_t) digits[i];
+        hash *= 1099511628211ULL; /* FNV-1a prime, as in edn_value_hash_internal */
+    }
+    return hash;
+}
+
 /**
  * Deep structural equality comparison.
  * 
@@ -96,16 +130,8 @@ static bool edn_value_equal_internal(const edn_value_t* a, const edn_value_t* b,
                 return false;
             }
 
-            size_t len_a, len_b;
-            uint8_t radix_a, radix_b;
-            bool neg_a, neg_b;
-            const char* digits_a = edn_bigint_get(a, &len_a, &neg_a, &radix_a);
-            const char* digits_b = edn_bigint_get(b, &len_b, &neg_b, &radix_b);
-
-            if (len_a != len_b) {
-                return false;
-            }
-            return memcmp(digits_a, digits_b, len_a) == 0;
+            return edn_digits_equal(a->as.bigint.digits, a->as.bigint.length, b->as.bigint.digits,
+                                    b->as.bigint.length);
         }
 
         case EDN_TYPE_FLOAT:
@@ -119,15 +145,8 @@ static bool edn_value_equal_internal(const edn_value_t* a, const edn_value_t* b,
                 return false;
             }
 
-            size_t len_a, len_b;
-            bool neg_a, neg_b;
-            const char* decimal_a = edn_bigdec_get(a, &len_a, &neg_a);
-            const char* decimal_b = edn_bigdec_get(b, &len_b, &neg_b);
-
-            if (len_a != len_b) {
-                return false;
-            }
-            return memcmp(decimal_a, decimal_b, len_a) == 0;
+            return edn_digits_equal(a->as.bigdec.decimal, a->as.bigdec.length, b->as.bigdec.decimal,
+                                    b->as.bigdec.length);
         }
 
 #ifdef EDN_ENABLE_CLOJURE_EXTENSION
@@ -467,20 +486,11 @@ static uint64_t edn_value_hash_internal(const edn_value_t* value) {
         }
 
         case EDN_TYPE_BIGINT: {
-            /* Use cleaned digits for hashing */
-            size_t len;
-            bool neg;
-            uint8_t radix;
-            const char* digits = edn_bigint_get(value, &len, &neg, &radix);
-
-            hash ^= radix;
+            hash ^= value->as.bigint.radix;
             hash *= FNV_PRIME;
-            hash ^= neg ? 1 : 0;
+            hash ^= value->as.bigint.negative ? 1 : 0;
             hash *= FNV_PRIME;
-            for (size_t i = 0; i < len; i++) {
-                hash ^= (uint8_t) digits[i];
-                hash *= FNV_PRIME;
-            }
+            hash = edn_digits_hash(hash, value->as.bigint.digits, value->as.bigint.length);
             break;
         }
 
@@ -505,17 +515,9 @@ static uint64_t edn_value_hash_internal(const edn_value_t* value) {
         }
 
         case EDN_TYPE_BIGDEC: {
-            /* Use cleaned decimal for hashing */
-            size_t len;
-            bool neg;
-            const char* decimal = edn_bigdec_get(value, &len, &neg);
-
-            hash ^= neg ? 1 : 0;
+            hash ^= value->as.bigdec.negative ? 1 : 0;
             hash *= FNV_PRIME;
-            for (size_t i = 0; i < len; i++) {
-                hash ^= (uint8_t) decimal[i];
-                hash *= FNV_PRIME;
-            }
+            hash = edn_digits_hash(hash, value->as.bigdec.decimal, value->as.bigdec.length);
             break;
         }
 
